@@ -828,7 +828,11 @@ func (in *Interp) equalFold(fr *frame, a, b Str) Value {
 			}
 			n := in.concretize(p.n, "EqualFold length")
 			for i := 0; i < n; i++ {
-				out = append(out, piece{k: pkUnit, t: tt.SeqNth(p.t, tt.IntConst(int64(i)))})
+				if p.t.op == "var" && i < byteViewMax {
+					out = append(out, piece{k: pkUnit, t: in.atomByte(p.t, i)})
+				} else {
+					out = append(out, piece{k: pkUnit, t: tt.SeqNth(p.t, tt.IntConst(int64(i)))})
+				}
 			}
 		}
 		return Str{p: out}
